@@ -389,6 +389,12 @@ func (g *GcsEmu) handleGcsUpdateMetadataRequest(ctx context.Context, baseUrl Htt
 			return fmt.Errorf("failed to update attrs of %s/%s: %w", bucket, filename, err)
 		}
 
+		// Respond with the updated metadata: read it while the object is still locked, or a
+		// concurrent request could replace or delete it first.
+		obj, err = g.store.GetMeta(baseUrl, bucket, filename)
+		if err != nil {
+			return fmt.Errorf("failed to get meta for %s/%s: %w", bucket, filename, err)
+		}
 		return nil
 	})
 	verifYield("gcs.unlocked")
@@ -399,13 +405,6 @@ func (g *GcsEmu) handleGcsUpdateMetadataRequest(ctx context.Context, baseUrl Htt
 	}
 	if obj == nil {
 		g.gapiError(w, http.StatusNotFound, fmt.Sprintf("%s/%s not found", bucket, filename))
-		return
-	}
-
-	// Respond with the updated metadata.
-	obj, err = g.store.GetMeta(baseUrl, bucket, filename)
-	if err != nil {
-		g.gapiError(w, http.StatusInternalServerError, fmt.Sprintf("failed to get meta for %s/%s: %s", bucket, filename, err))
 		return
 	}
 	g.jsonRespond(w, obj)
@@ -663,6 +662,7 @@ func (g *GcsEmu) finishUpload(ctx context.Context, baseUrl HttpBaseUrl, obj *sto
 	}
 	obj.Md5Hash = md5Hash
 
+	var meta *storage.Object
 	verifYield("gcs.before-lock")
 	err := g.locks.Run(ctx, lockName(bucket, filename), func(ctx context.Context) error {
 		verifYield("gcs.locked")
@@ -683,18 +683,19 @@ func (g *GcsEmu) finishUpload(ctx context.Context, baseUrl HttpBaseUrl, obj *sto
 		if err := g.store.Add(bucket, filename, contents, obj); err != nil {
 			return fmt.Errorf("failed to create %s/%s: %w", bucket, filename, err)
 		}
+
+		// Respond with the metadata of the object just written: read it while the object is still
+		// locked, or a concurrent request could replace or delete it first.
+		meta, err = g.store.GetMeta(baseUrl, bucket, filename)
+		if err != nil {
+			return fmt.Errorf("failed to get meta for %s/%s: %w", bucket, filename, err)
+		}
 		return nil
 	})
 	verifYield("gcs.unlocked")
 
 	if err != nil {
 		return nil, err
-	}
-
-	// respond with object metadata
-	meta, err := g.store.GetMeta(baseUrl, bucket, filename)
-	if err != nil {
-		return nil, fmt.Errorf("failed to get meta for %s/%s: %w", bucket, filename, err)
 	}
 	return meta, nil
 }
